@@ -52,12 +52,19 @@ def restore(wt, m, orig):
 def load_muts():
     return [json.loads(l) for l in open(f'{ROOT}/muts.jsonl')]
 
+# Keys that fire on every mutant of the pinned (older) base commit because the checker learnt the rule after that
+# commit's defect was found (F13, F15, F16): they do not count as kills of the mutant.
+BASE_NOISE = ('C03.R3:donor-was-managed', 'C04.R4:hup-offers-input', 'C06.R4:hup-offers-input',
+              'C06.R4:drain-observed-under-the-lock', 'C04.R4:drain-observed-under-the-lock')
+
 def load_results(name):
     res = {}
     p = f'{ROOT}/{name}.jsonl'
     if os.path.exists(p):
         for l in open(p):
             r = json.loads(l)
+            if name == 'check' and r.get('status') == 'killed' and not [k for k in r.get('keys', []) if not k.startswith(BASE_NOISE)]:
+                r['status'] = 'survived'
             res[r['id']] = r
     return res
 
@@ -124,7 +131,7 @@ def main():
             if code != 0:
                 r['status'] = 'nobuild'
             else:
-                code, out = sh(['/verif/bin/nplint', '-prop', 'all', '-tier', 'quick', '-repo', wt, '-verif', f'{wt}/.verif'], timeout=300)
+                code, out = sh([os.environ.get('NPLINT', '/verif/bin/nplint'), '-prop', 'all', '-tier', 'quick', '-repo', wt, '-verif', f'{wt}/.verif'], timeout=300)
                 props = sorted(set(l.split('property=')[1].split()[0] for l in out.splitlines() if l.startswith('VIOLATION property=')))
                 broken = sorted(set(l.split('property=')[1].split()[0] for l in out.splitlines() if l.startswith('BROKEN: property=')))
                 keys = [l.split()[1] for l in out.splitlines() if l.startswith('VIOLATED ') and not l.startswith('VIOLATED C')][:6]
@@ -137,6 +144,10 @@ def main():
         chk = load_results('check')
         done = load_results('suite')
         todo = [m for m in muts if chk.get(m['id'], {}).get('status') in ('survived', 'broken') and m['id'] not in done]
+        if '--sample' in sys.argv:
+            import random
+            random.Random(20260923).shuffle(todo)
+            todo = todo[:int(sys.argv[sys.argv.index('--sample') + 1])]
         def fn(wt, m):
             apply(wt, m, orig)
             t0 = time.time()
